@@ -70,13 +70,13 @@ struct Sched {
   uint64_t rng = 1;
   int mode = 0;                   // 0 = non-preemptive + preempt_at, 1 = random at every point
   bool deadlock = false, budget = false;
-  long max_events = 200000;
+  long max_events = 60000;
   uint64_t next() { rng ^= rng << 13; rng ^= rng >> 7; rng ^= rng << 17; return rng; }
 } S;
 
 static thread_local int my_tid = -1;
 static Tbl *g_tbl = nullptr;
-static const void *g_hp_addr = nullptr, *g_rc_addr = nullptr, *g_oldhp_addr = nullptr;
+static const void *g_hp_addr = nullptr, *g_rc_addr = nullptr, *g_oldhp_addr = nullptr, *g_lazy_addr = nullptr;
 
 // lockset bookkeeping (all under S.mu since only the baton holder runs)
 static std::set<std::pair<int, int>> held[MAXT]; // (gen, idx)
@@ -84,6 +84,7 @@ static bool in_lockall[MAXT], lockall_done[MAXT];
 static std::vector<std::string> g_viol;           // protocol / lockset violations of this execution
 static int first_lock_pending_validation[MAXT];   // 1 = first lock of an episode taken, RC_LOAD expected next
 static bool stored_hp_unbumped[MAXT];
+static long last_dec_old[MAXT];                   // value of the lazy counter seen by this thread's last decrement (-1: none)
 static int pending_append_gens[MAXT];
 static long pending_append_ev[MAXT];            // >0: all_locks_.size() seen when this thread announced an append
 
@@ -136,7 +137,14 @@ static void switch_to(std::unique_lock<std::mutex> &lk, int me, int nxt) {
 
 static void sched_point(int me) {
   std::unique_lock<std::mutex> lk(S.mu);
-  if ((long)S.trace.size() > S.max_events) { S.budget = true; }
+  if ((long)S.trace.size() > S.max_events) {
+    // a call that keeps synchronising without ever returning: livelock / endless retry. Unrecoverable: report from here.
+    std::string hist;
+    printf("{\"budget\":true,\"runs\":1,\"bad\":1,\"bad_observable\":1,\"events\":%zu,\"why\":\"step budget exceeded: T%d is still inside a call after %zu synchronisation events (livelock / endless retry)\",\"history\":\"\",\"choices\":\"\"}\n",
+           S.trace.size(), me, S.trace.size());
+    fflush(stdout);
+    _exit(4);
+  }
   int nxt = pick_next(me, true);
   switch_to(lk, me, nxt);
 }
@@ -171,6 +179,13 @@ static void handler(int kind, const void *addr, std::size_t value) {
     break;
   case EV_LOCKS_CURRENT: case EV_LOCKS_APPEND:
     main_obj = addr == (const void *)&Access::all_locks(*g_tbl);
+    break;
+  case EV_BUCKETS_FREE:
+    main_obj = addr == (const void *)&Access::old_buckets(*g_tbl) || addr == (const void *)&Access::buckets(*g_tbl);
+    ca = {addr == (const void *)&Access::buckets(*g_tbl) ? 0 : 1, 0};
+    break;
+  case EV_LAZY_LOAD: case EV_LAZY_STORE: case EV_LAZY_DEC:
+    main_obj = addr == g_lazy_addr;
     break;
   default: break;
   }
@@ -253,6 +268,24 @@ static void handler(int kind, const void *addr, std::size_t value) {
       break;
     }
     case EV_RC_BUMP: stored_hp_unbumped[me] = false; break;
+    case EV_LAZY_DEC: last_dec_old[me] = (long)Access::rem(*g_tbl); break;
+    case EV_BUCKETS_FREE:
+      if (ca.first == 1) {
+        // the superseded array may be released only by the thread whose decrement took the pending count from 1 to 0,
+        // or by a thread that owns the table (batch migration, clear, resize, destruction of a temporary)
+        bool owner = lockall_done[me];
+        if (!owner) {
+          auto &gens = Access::all_locks(*g_tbl);
+          size_t need = std::prev(gens.end())->size(), have = 0;
+          for (auto &h : held[me]) if (h.first == cur_gen()) ++have;
+          owner = have == need;
+        }
+        if (!owner && last_dec_old[me] != 1)
+          viol("the old bucket array is released by T" + std::to_string(me) + " whose decrement did not take the pending-stripe count from 1 to 0 (it saw " + std::to_string(last_dec_old[me]) + "): double release possible");
+        if (!owner && value == 0 && Access::rem(*g_tbl) != 0)
+          viol("the old bucket array is released while stripes are still pending migration");
+      }
+      break;
     default: break;
     }
     if (kind == EV_UNLOCK) {
@@ -424,11 +457,12 @@ static ExecOut execute(uint64_t seed, int mode, int preempts, const std::vector<
   for (auto &kv : g_prefill) tbl.insert(kv.first, kv.second);
   g_tbl = &tbl;
   // learn the addresses of the table's atomics
-  struct Probe { static void h(int k, const void *a, std::size_t) { if (k == EV_HP_LOAD && !g_hp_addr) g_hp_addr = a; if (k == EV_RC_LOAD && !g_rc_addr) g_rc_addr = a; } };
-  g_hp_addr = g_rc_addr = g_oldhp_addr = nullptr;
+  struct Probe { static void h(int k, const void *a, std::size_t) { if (k == EV_HP_LOAD && !g_hp_addr) g_hp_addr = a; if (k == EV_RC_LOAD && !g_rc_addr) g_rc_addr = a; if (k == EV_LAZY_LOAD && !g_lazy_addr) g_lazy_addr = a; } };
+  g_hp_addr = g_rc_addr = g_oldhp_addr = g_lazy_addr = nullptr;
   handler().store(Probe::h);
   (void)tbl.hashpower();
   (void)Access::rc(tbl);
+  (void)Access::rem(tbl);
   {
     const void *save = g_hp_addr; g_hp_addr = nullptr;
     (void)Access::old_buckets(tbl).hashpower();
@@ -446,7 +480,7 @@ static ExecOut execute(uint64_t seed, int mode, int preempts, const std::vector<
   g_res.assign(S.n, {});
   for (int t = 0; t < S.n; ++t) {
     S.st[t] = Sched::RUN; held[t].clear(); in_lockall[t] = lockall_done[t] = false;
-    first_lock_pending_validation[t] = 0; stored_hp_unbumped[t] = false; pending_append_gens[t] = 0; pending_append_ev[t] = -1;
+    first_lock_pending_validation[t] = 0; stored_hp_unbumped[t] = false; pending_append_gens[t] = 0; pending_append_ev[t] = -1; last_dec_old[t] = -1;
     g_res[t].assign(g_prog[t].size(), OpResult());
   }
   {
